@@ -41,4 +41,129 @@ VerifyTau(e1, d1, e2, d2) ==
 
 \* consensus legality of one epoch switch
 LegalSwitch(E, E2) == E2 * TAU >= E /\ E2 <= E * TAU
+
+(***************************************************************************)
+(* verify_total_difficulty, transcribed.                                   *)
+(*   e = <<number, index, length>>, d = block difficulty, t = total        *)
+(*   difficulty (of the block itself included).  Result "ok" or "reject".  *)
+(* The code works on EPOCH difficulties E = d * length: the difficulty     *)
+(* accumulated over a whole epoch, whatever its length.                    *)
+(***************************************************************************)
+Trend(s, t) == IF s = t THEN "same" ELSE IF s < t THEN "up" ELSE "down"
+
+RECURSIVE TauExpUp(_, _, _, _)
+\* smallest k < limit with s * TAU^(k+1) >= t, else -1   (calculate_tau_exponent, Increased)
+TauExpUp(tmp, t, k, limit) ==
+    IF k >= limit THEN -1
+    ELSE IF tmp * TAU >= t THEN k ELSE TauExpUp(tmp * TAU, t, k + 1, limit)
+RECURSIVE TauExpDown(_, _, _, _)
+TauExpDown(tmp, t, k, limit) ==
+    IF k >= limit THEN -1
+    ELSE IF tmp \div TAU <= t THEN k ELSE TauExpDown(tmp \div TAU, t, k + 1, limit)
+TauExponent(s, t, limit) ==
+    CASE Trend(s, t) = "same" -> 0
+      [] Trend(s, t) = "up" -> TauExpUp(s, t, 0, limit)
+      [] OTHER -> TauExpDown(s, t, 0, limit)
+
+\* split_epochs + remove_last_epoch: <<first group kind, count, second group kind, count>>
+SplitEpochs(limit, trend, n, k) ==
+    LET half == (n - k + 1) \div 2
+        inc == CASE limit = "min" /\ trend = "same" -> n - ((n + 1) \div 2)
+                 [] limit = "max" /\ trend = "same" -> (n + 1) \div 2
+                 [] limit = "min" /\ trend = "up"   -> n - half
+                 [] limit = "max" /\ trend = "up"   -> half + k
+                 [] limit = "min" /\ trend = "down" -> n - (half + k)
+                 [] OTHER                           -> half
+        dec == n - inc
+        first == IF limit = "min" THEN <<"down", dec>> ELSE <<"up", inc>>
+        second == IF limit = "min" THEN <<"up", inc>> ELSE <<"down", dec>>
+    IN IF second[2] = 0 THEN <<first[1], first[2] - 1, second[1], 0>>
+       ELSE <<first[1], first[2], second[1], second[2] - 1>>
+
+RECURSIVE WalkGroup(_, _, _, _, _)
+\* one group of the limit calculation: [curr, total, hit] -- hit: total >= actual was reached (short circuit)
+WalkGroup(kind, count, curr, total, actual) ==
+    IF count = 0 THEN [curr |-> curr, total |-> total, hit |-> FALSE]
+    ELSE LET c == IF kind = "down" THEN curr \div TAU ELSE curr * TAU
+             t == total + c
+         IN IF t >= actual THEN [curr |-> c, total |-> t, hit |-> TRUE]
+            ELSE WalkGroup(kind, count - 1, c, t, actual)
+
+\* check_total_difficulty_limit
+CheckLimit(limit, trend, n, k, actual, start, unaligned) ==
+    LET sp == SplitEpochs(limit, trend, n, k)
+        g1 == WalkGroup(sp[1], sp[2], start, 0, actual)
+        g2 == IF g1.hit THEN g1 ELSE WalkGroup(sp[3], sp[4], g1.curr, g1.total, actual)
+    IN IF g2.hit THEN limit = "max"
+       ELSE IF limit = "max" THEN g2.total + unaligned >= actual
+       ELSE g2.total + unaligned <= actual
+
+VerifyTotalDifficulty(e1, d1, t1, e2, d2, t2) ==
+    IF t1 > t2 THEN "reject"
+    ELSE LET total == t2 - t1 IN
+    IF e1[1] = e2[1]
+    THEN IF e2[2] >= e1[2] /\ total = d1 * (e2[2] - e1[2]) THEN "ok" ELSE "reject"
+    ELSE IF e2[1] < e1[1] \/ e1[2] >= e1[3] THEN "reject"
+    ELSE LET s == d1 * e1[3]
+             t == d2 * e2[3]
+             n == e2[1] - e1[1]
+             k == TauExponent(s, t, n)
+             unaligned == d1 * (e1[3] - e1[2] - 1) + d2 * (e2[2] + 1)
+         IN IF k < 0 THEN "reject"
+            ELSE IF n = 1 THEN (IF total = unaligned THEN "ok" ELSE "reject")
+            ELSE IF /\ CheckLimit("min", Trend(s, t), n, k, total, s, unaligned)
+                    /\ CheckLimit("max", Trend(s, t), n, k, total, s, unaligned)
+                 THEN "ok" ELSE "reject"
+
+(***************************************************************************)
+(* What C14 demands of the verdict.                                        *)
+(***************************************************************************)
+RECURSIVE PureGrowth(_, _)     \* sum of E * TAU^i for i = 1..m
+PureGrowth(E, m) == IF m = 0 THEN 0 ELSE E * TAU + PureGrowth(E * TAU, m - 1)
+RECURSIVE PureShrink(_, _)     \* sum of the m-fold repeated halvings (rounded down)
+PureShrink(E, m) == IF m = 0 THEN 0 ELSE (E \div TAU) + PureShrink(E \div TAU, m - 1)
+RECURSIVE Pow(_, _)
+Pow(b, m) == IF m = 0 THEN 1 ELSE b * Pow(b, m - 1)
+RECURSIVE Halve(_, _)
+Halve(E, m) == IF m = 0 THEN E ELSE Halve(E \div TAU, m - 1)
+
+\* the totals no history obeying TAU can produce, as the property lists them
+MustReject(e1, d1, t1, e2, d2, t2) ==
+    \/ t2 < t1                                                     \* decrease
+    \/ /\ t2 >= t1
+       /\ LET total == t2 - t1
+              s == d1 * e1[3]
+              t == d2 * e2[3]
+              n == e2[1] - e1[1]
+              unaligned == d1 * (e1[3] - e1[2] - 1) + d2 * (e2[2] + 1)
+          IN \/ n < 0                                               \* the epoch number decreased
+             \/ n = 0 /\ (e2[2] < e1[2] \/ total # d1 * (e2[2] - e1[2]))      \* within one epoch
+             \/ n = 1 /\ total # unaligned                                    \* across exactly one switch
+             \/ n >= 2 /\ (t > s * Pow(TAU, n) \/ t < Halve(s, n))             \* epoch difficulty moved too fast
+             \/ n >= 2 /\ total > unaligned + PureGrowth(s, n - 1)             \* grew faster than TAU per epoch
+             \/ n >= 2 /\ total < unaligned + PureShrink(s, n - 1)             \* shrank faster than TAU per epoch
+
+\* the tight envelope of the accumulated difficulty between two positions n >= 2 epochs apart: every
+\* intermediate epoch i is bounded by what the start allows after i switches and by what the end
+\* allows n - i switches before it
+RECURSIVE TightMax(_, _, _, _)
+TightMax(s, t, n, i) ==
+    IF i >= n THEN 0
+    ELSE (IF s * Pow(TAU, i) <= t * Pow(TAU, n - i) THEN s * Pow(TAU, i) ELSE t * Pow(TAU, n - i)) + TightMax(s, t, n, i + 1)
+CeilDiv(a, b) == (a + b - 1) \div b
+RECURSIVE TightMin(_, _, _, _)
+TightMin(s, t, n, i) ==
+    IF i >= n THEN 0
+    ELSE (IF CeilDiv(s, Pow(TAU, i)) >= CeilDiv(t, Pow(TAU, n - i)) THEN CeilDiv(s, Pow(TAU, i)) ELSE CeilDiv(t, Pow(TAU, n - i)))
+         + TightMin(s, t, n, i + 1)
+\* within the tight envelope (what a correct estimate has to accept)
+InTightEnvelope(e1, d1, t1, e2, d2, t2) ==
+    LET total == t2 - t1
+        s == d1 * e1[3]
+        t == d2 * e2[3]
+        n == e2[1] - e1[1]
+        unaligned == d1 * (e1[3] - e1[2] - 1) + d2 * (e2[2] + 1)
+    IN /\ n >= 2 /\ t2 >= t1
+       /\ total <= unaligned + TightMax(s, t, n, 1)
+       /\ total >= unaligned + TightMin(s, t, n, 1)
 =============================================================================
